@@ -8,6 +8,7 @@ import Hgxv.Proofs.C06LinkH
 import Hgxv.Proofs.C06LinkD
 import Hgxv.Proofs.C06LinkT
 import Hgxv.Proofs.C06LinkM
+import Hgxv.Proofs.C06Text
 /-! # C06 — save then load returns the same hypergraph, for every type and format
 
 Property theorems about the model `Hgxv/Model/C06.lean` (+ `C06Hif.lean`).  A `Content κ` is what the
@@ -808,3 +809,52 @@ example : (storeM.replay (save (ofSpec04 (C04.abs (C04.run (C04.init false []) e
       (fun (s1 : StoreM) => s1.1.edgeList) = some [(([1, 2], 0), 0), (([1, 2], 1), 1)] ∧
     (storeM.replay (save (ofSpec04 (C04.abs (C04.run (C04.init false []) exOpsM))))).map
       (fun (s1 : StoreM) => s1.1.adj) = some [(1, [0, 1]), (2, [0, 1]), (5, []), (3, [])] := by decide
+
+/-! ## the text file itself: framing of the record stream (strengthening round 2, size as a dimension)
+
+`save_hypergraph(.json)` writes the array by hand (`[`, then per record an optional `,` and the record, then `]`) and
+`json.load` parses it again.  `Piece`, `writeText` (the loop with its `first` flag), `readText` (the array grammar) are in
+`Model/C06Text.lean`.  No statement below mentions a number of records: they hold for files of every size. -/
+
+/-- the file is `[`, the records with exactly one separator between two neighbours, `]` - for every record list -/
+theorem C06_text_framing {α : Type} (rs : List α) :
+    writeText rs = .opn :: ((rs.map Piece.item).intersperse .sep ++ [.cls]) :=
+  writeText_framed rs
+
+/-- number of pieces in the file: 2 brackets, one piece per record, one separator per pair of neighbours -/
+theorem C06_text_pieces {α : Type} (rs : List α) :
+    (writeText rs).length = 2 + rs.length + (rs.length - 1) :=
+  writeText_length rs
+
+/-- the array grammar reads back exactly the written record list, whatever its length -/
+theorem C06_text_read_write {α : Type} (rs : List α) : readText (writeText rs) = some rs :=
+  readText_writeText rs
+
+/-- through the file text: `load_hypergraph(save_hypergraph(c))` is the record-level `load (save c)` (all four types) -/
+theorem C06_text_load_save {κ : Type} [DecidableEq κ] [Kind κ] (c : Content κ) :
+    loadText (κ := κ) (saveText c) = load (save c) := by
+  simp [loadText, saveText, readText_writeText]
+
+theorem C06_text_load_save_any (a : AnyContent) : loadTextAny (saveTextAny a) = loadAny (saveAny a) := by
+  simp [loadTextAny, saveTextAny, readText_writeText]
+
+/-- the round trip of `C06_json_roundtrip`, stated on the file text -/
+theorem C06_text_roundtrip {κ : Type} [DecidableEq κ] [Kind κ] [LawfulKind κ] (c : Content κ) (h : WF c) :
+    (loadText (κ := κ) (saveText c)).map Content.erased = some c.erased := by
+  rw [C06_text_load_save]; exact C06_json_roundtrip c h
+
+/-- seeded change C06-c2 (records buffered, `",\n".join(chunk)` per flush, nothing between two flushes), chunk size 2:
+up to 2 records the file is the same, with 3 records a record directly follows a record and the array grammar rejects
+the file; the code's writer reads back -/
+theorem C06_text_buffered_witness :
+    writeBuffered 2 [10, 11] = writeText [10, 11] ∧
+    writeBuffered 2 [10, 11, 12] = [.opn, .item 10, .sep, .item 11, .item 12, .cls] ∧
+    readText (writeBuffered 2 [10, 11, 12]) = none ∧
+    readText (writeText [10, 11, 12]) = some [10, 11, 12] := by decide
+
+/-- non-vacuity: the pieces of `exT`'s file (header, 3 node records, 2 hyperedge records: 6 records, 5 separators) and
+its round trip through the text -/
+example : (saveText exT).length = 13 ∧ (saveText exT).head? = some .opn ∧ (saveText exT).getLast? = some .cls := by decide
+example : (loadText (κ := TKey) (saveText exT)).map Content.erased = some exT.erased := C06_text_roundtrip exT (by decide)
+example : readText ([.opn, .cls] : List (Piece Nat)) = some [] ∧ readText ([.opn, .item 1, .sep, .cls] : List (Piece Nat)) = none ∧
+    readText ([.opn, .item 1, .cls, .cls] : List (Piece Nat)) = none ∧ readText ([.item 1] : List (Piece Nat)) = none := by decide
